@@ -118,7 +118,11 @@ CLAIMED = {
         technique="Coq proof (induction over programs with a stale-or-due invariant) + witness-driven vm_compute correspondence",
         ref='6/C12'),
     'C14': dict(
-        text=("Proof: over exact rationals, for ALL configurations and all histories of traffic, errors with extra cost, bumps of "
+        text=("Proof: the arithmetic of data_received, _send_message, _bump_errors, bump_cost, recalc_concurrency and the cost sleep "
+              "is TRANSLATED from the Python source on every run, expression by expression, into a small expression language; "
+              "theorems show that every expression was understood and that, evaluated over exact rationals, they are the formulas "
+              "the model is built from (for every configuration, state and argument). On that model, "
+              "over exact rationals, for ALL configurations and all histories of traffic, errors with extra cost, bumps of "
               "either sign, explicit re-evaluations and time advances: cost >= 0; each charge moves the cost by exactly the "
               "stated amount (clamped) and the re-evaluation is lazy (exactly when the drift exceeds the extracted threshold) "
               "and decays the cost by elapsed x rate; the permitted concurrency is a non-increasing function of the evaluated "
